@@ -41,25 +41,45 @@ def families(tier: str) -> list[dict]:
         dict(method='inverse', prediv=False, F=2, I=2, in_hook=False),
         dict(method='eigen', prediv=True, F=1, I=2, in_hook=True, accum=2,
              sched={'damping': 'half', 'inv_update_steps': 'dbl_after1'}),
+        # damping baked into the second-order data, varying with the step:
+        # a load must recompute with the RESTORED step count / damping
+        dict(method='inverse', prediv=False, F=1, I=3, in_hook=True,
+             damping='damp_lin'),
+        dict(method='eigen', prediv=True, F=1, I=2, in_hook=False,
+             damping='damp_lin', model='mixb'),
+        # the fresh preconditioner is constructed with OTHER constants
+        dict(method='inverse', prediv=False, F=1, I=2, in_hook=True,
+             fresh_perturb=True),
+        dict(method='eigen', prediv=True, F=2, I=3, in_hook=True,
+             fresh_perturb=True, model='mlp2nb'),
     ]
     for i, g in enumerate(gens):
         c = dict(base, **g)
         alpha = ['Train', 'Step', 'Save', 'Load']
         if 'sched' in g:
             alpha.append('Sched')
-        fams.append(reffam.fam(c, alpha, d,
-                               micro=sorted({c.get('accum', 1)})))
+        if i < 4:
+            fams.append(reffam.fam(c, alpha, d,
+                                   micro=sorted({c.get('accum', 1)})))
+        else:
+            # deeper, with factors in the state and inverses recomputed: the
+            # step after the load (a non-refresh step) is reached
+            fams.append(reffam.fam(c, alpha, d + 2,
+                                   micro=sorted({c.get('accum', 1)}),
+                                   save_args=(True,), load_args=(True,)))
     # distributed (strict discipline): every strategy
     worlds = [dict(W=2, k=1), dict(W=2, k=2),
               dict(W=4, k=2, bucket_cap_mb=0.0),
               dict(W=4, k=4, symmetry=True), dict(W=4, k=1),
               dict(W=4, k=2, colocate=False, prediv=False)]
-    for g in (gens[0], gens[1], gens[2]):
-        c = dict(base, **g, model='mlp3')
+    for g in (gens[0], gens[1], gens[2], gens[6]):
+        c = dict(base, **{**g, 'model': 'mlp3'})
         rcs = [dict(c, **w) for w in worlds if not (
             w.get('colocate') is False and c.get('prediv'))]
-        fams.append(reffam.fam(c, ['Train', 'Step', 'Save', 'Load'], d + 1,
-                               strict=True, replay_cfgs=rcs))
+        fams.append(reffam.fam(c, ['Train', 'Step', 'Save', 'Load'], d + 2,
+                               strict=True, replay_cfgs=rcs,
+                               save_args=(True,), load_args=(True, False)
+                               if g is gens[0] else (True,)))
     return fams
 
 
